@@ -85,6 +85,11 @@ CHECKS["C13"] = dict(cat=MC, engine="E2 exhaustive traffic-pattern enumeration o
    text="Every traffic pattern over 7 (8) half-second slots with alphabet {silent, client byte, origin byte}, for T = 0, 1, 2 s and for open / client-half-closed / origin-half-closed tunnels runs concurrently on the real copy_bidi: a tunnel is never closed for idleness less than T after a byte was sent (hard bound), is closed at most T + 1 s ticker + 1.5 s slack after the last byte, and T = 0 never closes. Real binary: the period reported by /api/live for http, socks5, reverse-tcp, socks5-UDP, reverse-UDP and http-UDP tunnels equals the configured (or default) value for every grid cell; silent tunnels with T=2 close in time, with T=0 stay.",
    note="Real clock (ContextStatistics uses SystemTime): bounds are one-sided so load only delays a verdict. Periods other than 0/1/2 s only through the wiring grid. QUIC and TPROXY listeners not in the wiring grid.",
    ref="DESIGN.md §3 C13")
+CHECKS["C10"] = dict(cat="exploration", engine="E4 xnet (two real proxy hops, Python UDP clients and tagging echo origin)",
+   technique="exhaustive grid enumeration on real sockets: UDP listener x connector x destination kind x payload size x first/later datagram, concurrent tagged sessions, fault injection (client port closed while the origin answers); lock-step, deadline verdicts re-run once",
+   text="Every UDP-capable listener reachable from a Python client (SOCKS5 UDP associate, reverse UDP, HTTP CONNECT with Proxy-Protocol: udp inline) x every connector (direct, socks5, http inline, quic inline, quic datagrams; the last four through a second real hop) x destination {IPv4, IPv6, domain} x payload sizes 0..65000 x first/later datagram of a session: exactly one datagram with identical payload at the origin, reply back at the owner labelled with the origin's address; three concurrent sessions x 4 rounds never see each other's payload; a pending receive error never becomes a datagram.",
+   note="Level 'exploration': only real UDP/QUIC sockets reach this code; kernel scheduling is uncontrolled and QUIC datagrams may shed load, so a lost-datagram verdict is re-run once. TPROXY UDP and a QUIC client as first hop are out of reach. The reassembly logic under reordering is model-checked in C11.",
+   ref="DESIGN.md §3 C10")
 NOT_YET = "check not built yet in this revision (see DESIGN.md §3 for the planned model-checking design)"
 def main():
     checks = []
@@ -120,7 +125,7 @@ def main():
         "engines": [
             {"name": "E1 xsched", "path": "harness/src/verif/xsched.rs", "serves_properties": ["C01", "C04", "C06", "C14", "C15", "C16"], "kind_free_text": "stateless deviation-bounded DFS over task schedules and scripted environment answers of real async code"},
             {"name": "E3 loom", "path": "harness/src/verif/c17.rs", "serves_properties": ["C17"], "kind_free_text": "loom exhaustive interleavings of the real load balancer (feature loomlb => cfg(redproxy_verif_loom))"},
-            {"name": "E4 xnet", "path": "e4/", "serves_properties": ["C04", "C06", "C13", "C15", "C18"], "kind_free_text": "real-socket script/fault enumeration against the real binary (Python drivers, kernel scheduling uncontrolled)"},
+            {"name": "E4 xnet", "path": "e4/", "serves_properties": ["C04", "C06", "C10", "C13", "C15", "C18"], "kind_free_text": "real-socket script/fault enumeration against the real binary (Python drivers, kernel scheduling uncontrolled)"},
             {"name": "E2 xseq", "path": "harness/src/verif/", "serves_properties": [p for p in CHECKS], "kind_free_text": "bounded-exhaustive operation-sequence / input-shape enumeration on the real code vs reference model"},
         ],
         "checks": checks,
